@@ -27,6 +27,9 @@ type CVMContract struct {
 	*Code
 }
 
+// tt256 is 2^256: EVM words wrap around at it.
+var tt256 = new(big.Int).Lsh(big.NewInt(1), 256)
+
 // Call executes the CVM contract call with the given state of the blockchain and parameters.
 func (c *CVMContract) Call(state engine.State, params engine.CallParams) ([]byte, error) {
 	return engine.Call(state, params, c.execute)
@@ -177,7 +180,8 @@ func (c *CVMContract) execute(st engine.State, params engine.CallParams) ([]byte
 
 		case EXP: // 0x0A
 			x, y := stack.PopBigInt(), stack.PopBigInt()
-			pow := new(big.Int).Exp(x, y, nil)
+			// modular exponentiation: the exact power of two 256-bit operands does not fit in any machine
+			pow := new(big.Int).Exp(x, y, tt256)
 			res := stack.PushBigInt(pow)
 			c.debugf(" %v ** %v = %v (%v)\n", x, y, pow, res)
 
